@@ -9,6 +9,8 @@ import (
 	"net"
 	"net/http"
 	"net/http/httptest"
+	"net/url"
+	"reflect"
 	"sort"
 	"strconv"
 	"strings"
@@ -29,6 +31,14 @@ import (
 //	tcp    the real ServeHTTP: CONNECT /eventmon/v0 over TCP exactly as eventmon/monitord
 //	       does it, with a client goroutine that decodes the JSON stream
 //	stall  like tcp, but the client never reads (a stalled monitor)
+//	pipe   the public API only: ServeHTTP is handed a hijackable ResponseWriter whose connection is an
+//	       unbuffered net.Pipe; the client (this harness) reads one message off the wire per `release`,
+//	       so the connection handler sits in its write to a momentarily slow monitor while further
+//	       events are published. What is reported for this kind is what the CLIENT decoded from the
+//	       bytes it read (`#wire=` on close/dump), next to the server-side log every held kind has.
+//
+// The subscriber channels of the notifier are looked at through reflection (length, capacity, identity):
+// the harness does not depend on what the notifier queues (events, encoded messages, …).
 //
 // Ops: sub <id> <kind> | pub ssh|x509 <hex> | pub auth <hex type> <hex user> |
 // pub sp <hex url> <hex user> | pub web <hex user> | pub vip <hex type> <hex user> |
@@ -38,7 +48,7 @@ import (
 type vfSub struct {
 	id     int
 	kind   string
-	ch     chan<- eventmon.EventV0
+	ch     vfChan
 	total  int // events this subscriber's channel accepted so far (harness bookkeeping for settling only)
 	gate   *vfGate
 	reader *vfReader
@@ -46,7 +56,19 @@ type vfSub struct {
 	done   chan struct{}
 	mu     sync.Mutex
 	got    []string // tcp: decoded by the client
+	pipe   *vfPipeConn
+	client net.Conn      // pipe: the monitor's end
+	cbr    *bufio.Reader // pipe: the monitor's reader
+	wire   []byte        // pipe: every byte the monitor has read after the connect message
 }
+
+// vfChan is one subscriber channel of the notifier, whatever its element type.
+type vfChan struct{ v reflect.Value }
+
+func (c vfChan) ok() bool      { return c.v.IsValid() }
+func (c vfChan) id() uintptr   { return c.v.Pointer() }
+func (c vfChan) length() int   { return c.v.Len() }
+func (c vfChan) capacity() int { return c.v.Cap() }
 
 type vfGate struct {
 	mu      sync.Mutex
@@ -127,28 +149,102 @@ type vfNotifierHarness struct {
 	note string
 }
 
-func (h *vfNotifierHarness) channels() map[chan<- eventmon.EventV0]bool {
+func (h *vfNotifierHarness) channels() map[uintptr]vfChan {
 	h.n.mutex.Lock()
 	defer h.n.mutex.Unlock()
-	m := map[chan<- eventmon.EventV0]bool{}
-	for ch := range h.n.transmitChannels {
-		m[ch] = true
+	m := map[uintptr]vfChan{}
+	for _, k := range reflect.ValueOf(h.n.transmitChannels).MapKeys() {
+		for k.Kind() == reflect.Interface {
+			k = k.Elem()
+		}
+		if k.Kind() != reflect.Chan {
+			continue
+		}
+		m[k.Pointer()] = vfChan{k}
 	}
 	return m
 }
 
 // waitNewChannel polls until the notifier registered a channel that was not there before.
-func (h *vfNotifierHarness) waitNewChannel(before map[chan<- eventmon.EventV0]bool) chan<- eventmon.EventV0 {
+func (h *vfNotifierHarness) waitNewChannel(before map[uintptr]vfChan) vfChan {
 	deadline := time.Now().Add(5 * time.Second)
 	for time.Now().Before(deadline) {
-		for ch := range h.channels() {
-			if !before[ch] {
+		for id, ch := range h.channels() {
+			if _, ok := before[id]; !ok {
 				return ch
 			}
 		}
 		time.Sleep(200 * time.Microsecond)
 	}
-	return nil
+	return vfChan{}
+}
+
+func (h *vfNotifierHarness) registered(ch vfChan) bool {
+	_, ok := h.channels()[ch.id()]
+	return ok
+}
+
+// vfPipeConn is the server end of a net.Pipe handed out by Hijack. Until the client has read the connect
+// message writes pass straight through; after that every write is logged (server-side view, like the gated
+// kind) and then goes to the unbuffered pipe, where it stays until the client reads it.
+type vfPipeConn struct {
+	net.Conn
+	g *vfGate
+}
+
+func (c *vfPipeConn) Write(p []byte) (int, error) {
+	g := c.g
+	g.mu.Lock()
+	if !g.open { // `open` = connect phase for this kind
+		var ev eventmon.EventV0
+		s := "undecodable:" + hex.EncodeToString(p)
+		if err := json.Unmarshal(p, &ev); err == nil {
+			s = vfCanon(ev)
+		}
+		g.got = append(g.got, s)
+		g.inWrite = true
+		g.permits = len(p) // bytes the client has to read to let this write return
+	}
+	armed := !g.open
+	g.mu.Unlock()
+	n, err := c.Conn.Write(p)
+	if armed {
+		g.mu.Lock()
+		g.inWrite = false
+		g.permits = 0
+		g.mu.Unlock()
+	}
+	return n, err
+}
+
+// vfHijackWriter is the http.ResponseWriter + http.Hijacker the pipe subscriber hands to ServeHTTP.
+type vfHijackWriter struct {
+	conn net.Conn
+	hdr  http.Header
+	code int
+}
+
+func (w *vfHijackWriter) Header() http.Header         { return w.hdr }
+func (w *vfHijackWriter) Write(p []byte) (int, error) { return len(p), nil }
+func (w *vfHijackWriter) WriteHeader(code int)        { w.code = code }
+func (w *vfHijackWriter) Hijack() (net.Conn, *bufio.ReadWriter, error) {
+	return w.conn, bufio.NewReadWriter(bufio.NewReader(w.conn), bufio.NewWriter(w.conn)), nil
+}
+
+// wireEvents decodes everything the pipe client has read so far the way monitord does (a JSON stream).
+func (s *vfSub) wireEvents() []string {
+	var l []string
+	dec := json.NewDecoder(strings.NewReader(string(s.wire)))
+	for {
+		var ev eventmon.EventV0
+		if err := dec.Decode(&ev); err != nil {
+			if err != io.EOF {
+				l = append(l, "undecodable")
+			}
+			return l
+		}
+		l = append(l, vfCanon(ev))
+	}
 }
 
 func (h *vfNotifierHarness) subscribe(id int, kind string) bool {
@@ -164,6 +260,33 @@ func (h *vfNotifierHarness) subscribe(id int, kind string) bool {
 			h.n.handleConnection(rw)
 			close(s.done)
 		}()
+	case "pipe":
+		srvEnd, cliEnd := net.Pipe()
+		s.gate = &vfGate{open: true}
+		s.gate.cond = sync.NewCond(&s.gate.mu)
+		s.pipe = &vfPipeConn{Conn: srvEnd, g: s.gate}
+		s.client = cliEnd
+		w := &vfHijackWriter{conn: s.pipe, hdr: http.Header{}}
+		req := &http.Request{Method: "CONNECT", URL: &url.URL{Path: eventmon.HttpPath}, Proto: "HTTP/1.0",
+			ProtoMajor: 1, Header: http.Header{}, RemoteAddr: "pipe", Host: "pipe"}
+		go func() {
+			h.n.ServeHTTP(w, req)
+			srvEnd.Close()
+			close(s.done)
+		}()
+		s.cbr = bufio.NewReader(cliEnd)
+		cliEnd.SetReadDeadline(time.Now().Add(5 * time.Second))
+		resp, err := http.ReadResponse(s.cbr, &http.Request{Method: "CONNECT"})
+		cliEnd.SetReadDeadline(time.Time{})
+		if err != nil || resp.Status != eventmon.ConnectString {
+			h.note = fmt.Sprintf("connect (pipe): %v %v code=%d", err, resp, w.code)
+			cliEnd.Close()
+			srvEnd.Close()
+			return false
+		}
+		s.gate.mu.Lock()
+		s.gate.open = false
+		s.gate.mu.Unlock()
 	case "tcp", "stall":
 		conn, err := net.Dial("tcp", h.srv.Listener.Addr().String())
 		if err != nil {
@@ -199,7 +322,7 @@ func (h *vfNotifierHarness) subscribe(id int, kind string) bool {
 		return false
 	}
 	s.ch = h.waitNewChannel(before)
-	if s.ch == nil {
+	if !s.ch.ok() {
 		h.note = "subscriber channel never registered"
 		return false
 	}
@@ -219,7 +342,7 @@ func (h *vfNotifierHarness) ids() []int {
 // beforePublish: bookkeeping used only to know when the goroutines have come to rest.
 func (h *vfNotifierHarness) beforePublish() {
 	for _, s := range h.subs {
-		if len(s.ch) < cap(s.ch) {
+		if s.ch.length() < s.ch.capacity() {
 			s.total++
 		}
 	}
@@ -235,10 +358,10 @@ func (h *vfNotifierHarness) settle() bool {
 				continue
 			}
 			n, inWrite := s.count()
-			l := len(s.ch)
+			l := s.ch.length()
 			if n+l != s.total {
 				ok = false
-			} else if s.kind == "gated" {
+			} else if s.kind == "gated" || s.kind == "pipe" {
 				if !(inWrite || l == 0) {
 					ok = false
 				}
@@ -266,11 +389,11 @@ func (h *vfNotifierHarness) status(box bool) string {
 	for _, id := range h.ids() {
 		s := h.subs[id]
 		if s.kind == "stall" {
-			stall = append(stall, fmt.Sprintf("%d:%d", id, len(s.ch)))
+			stall = append(stall, fmt.Sprintf("%d:%d", id, s.ch.length()))
 			continue
 		}
 		n, _ := s.count()
-		out += fmt.Sprintf(" %d:%d:%d", id, len(s.ch), n)
+		out += fmt.Sprintf(" %d:%d:%d", id, s.ch.length(), n)
 	}
 	if len(stall) > 0 {
 		out += " #stall=" + strings.Join(stall, ",")
@@ -292,10 +415,15 @@ func vfBox(f func()) bool {
 	}
 }
 
-func (h *vfNotifierHarness) closeSub(id int) string {
+func (h *vfNotifierHarness) closeSub(id int) (string, string) {
 	s := h.subs[id]
 	evs := s.events()
-	if s.gate != nil {
+	wire := ""
+	if s.pipe != nil {
+		wire = " #wire=" + vfJoin(s.wireEvents())
+		s.client.Close()
+		s.pipe.Conn.Close()
+	} else if s.gate != nil {
 		s.gate.mu.Lock()
 		s.gate.failed = true
 		s.gate.cond.Broadcast()
@@ -306,25 +434,63 @@ func (h *vfNotifierHarness) closeSub(id int) string {
 	}
 	// wait for handleConnection's deferred delete
 	deadline := time.Now().Add(5 * time.Second)
-	for h.channels()[s.ch] && time.Now().Before(deadline) {
+	for h.registered(s.ch) && time.Now().Before(deadline) {
 		time.Sleep(200 * time.Microsecond)
 	}
-	gone := !h.channels()[s.ch]
+	gone := !h.registered(s.ch)
 	delete(h.subs, id)
 	if s.kind == "stall" {
 		if !gone {
-			return "closed-not-removed"
+			return "closed-not-removed", ""
 		}
-		return "closed"
+		return "closed", ""
 	}
 	l := "-"
 	if len(evs) > 0 {
 		l = strings.Join(evs, "|")
 	}
 	if !gone {
-		return fmt.Sprintf("closed-not-removed %d=%s", id, l)
+		return fmt.Sprintf("closed-not-removed %d=%s", id, l), wire
 	}
-	return fmt.Sprintf("closed %d=%s", id, l)
+	return fmt.Sprintf("closed %d=%s", id, l), wire
+}
+
+func vfJoin(l []string) string {
+	if len(l) == 0 {
+		return "-"
+	}
+	return strings.Join(l, "|")
+}
+
+// releasePipe lets the slow monitor read exactly the message its connection handler is trying to write.
+func (h *vfNotifierHarness) releasePipe(s *vfSub) {
+	s.gate.mu.Lock()
+	n := 0
+	if s.gate.inWrite {
+		n = s.gate.permits
+	}
+	seq := len(s.gate.got)
+	s.gate.mu.Unlock()
+	if n == 0 {
+		return
+	}
+	buf := make([]byte, n)
+	s.client.SetReadDeadline(time.Now().Add(5 * time.Second))
+	m, _ := io.ReadFull(s.cbr, buf)
+	s.client.SetReadDeadline(time.Time{})
+	s.wire = append(s.wire, buf[:m]...)
+	// wait for the write to return so that the next state is well defined
+	deadline := time.Now().Add(5 * time.Second)
+	for time.Now().Before(deadline) {
+		s.gate.mu.Lock()
+		// either that write returned, or the handler is already parked in the next one
+		done := !s.gate.inWrite || len(s.gate.got) != seq
+		s.gate.mu.Unlock()
+		if done {
+			return
+		}
+		time.Sleep(50 * time.Microsecond)
+	}
 }
 
 func TestVerifC20(t *testing.T) {
@@ -389,7 +555,9 @@ func TestVerifC20(t *testing.T) {
 				io_.emit("bad-op")
 				continue
 			}
-			if s.gate != nil {
+			if s.pipe != nil {
+				h.releasePipe(s)
+			} else if s.gate != nil {
 				s.gate.mu.Lock()
 				if s.gate.inWrite && !s.gate.open {
 					s.gate.permits++
@@ -410,8 +578,8 @@ func TestVerifC20(t *testing.T) {
 				io_.emit("bad-op")
 				continue
 			}
-			res := h.closeSub(id)
-			io_.emit("%s %s", res, h.status(true))
+			res, wire := h.closeSub(id)
+			io_.emit("%s %s%s", res, h.status(true), wire)
 		case f[0] == "dump":
 			out := "dump"
 			for _, id := range h.ids() {
